@@ -18,9 +18,19 @@ from fractions import Fraction
 import numpy as np
 
 from .. import universe as U
-from ..core import guarded, MachineryError
+from ..core import guarded as _core_guarded, MachineryError
 from ..numeric import fr, fx_req
 from ..project import find_scale, ids
+
+
+def guarded(fn, seconds):
+    """core.guarded with a generous alarm; an expired alarm says something about the MACHINE (load, a slow box), not
+    about the library -- none of the calls driven here can loop -- so it is a machinery failure (exit 2), never an
+    observation a clause could turn into a VIOLATION."""
+    res, err = _core_guarded(fn, 10 * seconds)
+    if err == 'Timeout':
+        raise MachineryError('per-call alarm expired (%d s): machine too slow or overloaded' % (10 * seconds))
+    return res, err
 
 RULE = ('scenario = one geometric region (cells or facets of an integer-coordinate mesh) with one integrand / '
         'element / form, observed on the mesh as generated and on renumbered, rigidly moved and refined copies; '
@@ -971,10 +981,12 @@ def gen_integrate(tier, rng):
             regs.append(({'dom': 'facets', 'mode': 'array' if j % 2 == 0 else 'tag', 'fverts': sel}, 'cells'))
         orc = 'cells' if allrat else 'sq'
         nf = len(F)
-        # every facet of the mesh, listed in an order that is not ascending; full length with repetitions;
+        # every facet of the mesh, listed in an order that is not ascending;
         # subsets in arbitrary order; collections of overlapping selectors
+        # (no repeated entries: the statement speaks of SETS of facets; whether a facet listed twice is integrated
+        # twice or once is the library's choice and is not judged here)
         listings = [inter + bnd, F[::-1], [F[i] for i in rng.permutation(nf)],
-                    [F[i] for i in sorted(rng.integers(0, nf, size=nf))],
+                    [F[i] for i in rng.permutation(nf)[:max(1, (2 * nf) // 3)]],
                     [F[i] for i in rng.permutation(nf)[:max(1, nf // 2)]]]
         for j, sel in enumerate(listings):
             regs.append(({'dom': 'facets', 'mode': 'array', 'fverts': sel, 'dtype': ('int32', 'int64')[j % 2]}, orc))
@@ -1230,7 +1242,7 @@ def gen_sequence(tier, rng):
         p[0] = np.array([0, 1, 3, 7])[p[0].astype(int)]                  # graded in x
         nt = np.asarray(t).shape[1]
         regs = [arr([1, 0], 'int32'), arr([1], 'int64'), arr([0, 2, 3]), arr([0, 1, 3]), arr([3, 2, 0]),
-                arr(list(range(nt))), arr(list(range(nt))[::-1], 'int32'), arr([0, 0, 1])]
+                arr(list(range(nt))), arr(list(range(nt))[::-1], 'int32'), arr([2, 0, 1])]
         seq(kind, 'history-small', p, t, regs, (0, 2) if kind != 'hex' else (0, 1))
     # graded tensor quadrilateral mesh, > 2000 cells; sub-domains of > 1000 cells that share their first and last cells
     n = 46
